@@ -76,6 +76,7 @@ type Oblig struct {
 	SmtFile string
 	Extra   []string // extra assumptions (residual obligations of known findings)
 	Budget  int      // >0: single race with this timeout (known findings)
+	PkgPath string   // package of the function (frame obligations)
 	Bytes   int
 }
 
